@@ -89,6 +89,9 @@ func runE6(p *Program, sp *Spec, c *Collector) {
 	for _, ca := range t.CoAccess {
 		runCoAccess(p, sp, c, ca)
 	}
+	for _, nk := range t.NestedKills {
+		runNestedKills(p, sp, c, nk)
+	}
 }
 
 // ---------------------------------------------------------------------------------------------
@@ -1393,55 +1396,7 @@ func runNesting(p *Program, sp *Spec, c *Collector, ns NestingSpec) {
 		c.Ob(ns.Props, "E6.nesting", key, Discharged, "rule "+rule+" cannot contain itself: every occurrence is an outermost one", p.FuncPos(fn), true)
 		return
 	}
-	// parent discrimination: a type test on ctx.GetParent()
-	sf := newSymFn(p, fn, 0)
-	tested := false
-	for _, b := range fn.Blocks {
-		for _, in := range b.Instrs {
-			var operand ssa.Value
-			switch x := in.(type) {
-			case *ssa.TypeAssert:
-				if x.CommaOk {
-					operand = x.X
-				}
-			case *ssa.Call:
-				if callee := x.Call.StaticCallee(); callee != nil && fullFuncName(callee) == "reflect.TypeOf" && len(x.Call.Args) == 1 {
-					operand = x.Call.Args[0]
-				}
-			}
-			if operand == nil {
-				continue
-			}
-			t := sf.val(operand)
-			if n, ok := invokeName(t); ok && n == "GetParent" && len(t.Kids) == 1 && t.Kids[0].Op == "param" {
-				tested = true
-			}
-		}
-	}
-	if !tested {
-		// the other discipline: a depth kept by the Enter/Exit pair (a package-level counter both callbacks touch)
-		if recv := fn.Signature.Recv(); recv != nil {
-			pr, tn := "", ""
-			if pk, n := namedTypeName(recv.Type()); pk != "" {
-				pr, tn = strings.TrimPrefix(pk, modPath+"/"), n
-			}
-			for _, m := range p.methodsDeclaredOn(pr, tn) {
-				if m.Name() != "Exit"+strings.TrimPrefix(fn.Name(), "Enter") {
-					continue
-				}
-				a := getStateAn(p)
-				_, wExit := a.locals(m)
-				rEnter, _ := a.locals(fn)
-				for g := range wExit {
-					// a counter, not a flag: a flag is cleared by the inner Exit while the outer construct is still open
-					bt, isBasic := g.Type().Underlying().(*types.Pointer).Elem().Underlying().(*types.Basic)
-					if _, ok := rEnter[g]; ok && isBasic && bt.Info()&types.IsInteger != 0 {
-						tested = true
-					}
-				}
-			}
-		}
-	}
+	tested := nestingTested(p, fn)
 	if tested {
 		c.Ob(ns.Props, "E6.nesting", key, Discharged, "rule "+rule+" can occur inside itself (through "+via+"); the callback inspects the type of its parent (or keeps a depth with its Exit callback)", p.FuncPos(fn), true)
 	} else {
@@ -1534,5 +1489,155 @@ func runCoAccess(p *Program, sp *Spec, c *Collector, ca CoAccessSpec) {
 	}
 	if n == 0 {
 		c.Ob(ca.Props, "E6.co-access", "coaccess:"+strings.Join(ca.Funcs, ","), Undecided, ca.What+": no use of "+ca.Using+" found (anchor lost)", "", false)
+	}
+}
+
+// nestingTested: does the callback tell a nested occurrence from an outermost one — by a type test on ctx.GetParent(), or by a
+// depth (integer counter) kept together with its Exit callback?
+func nestingTested(p *Program, fn *ssa.Function) bool {
+	// parent discrimination: a type test on ctx.GetParent()
+	sf := newSymFn(p, fn, 0)
+	tested := false
+	for _, b := range fn.Blocks {
+		for _, in := range b.Instrs {
+			var operand ssa.Value
+			switch x := in.(type) {
+			case *ssa.TypeAssert:
+				if x.CommaOk {
+					operand = x.X
+				}
+			case *ssa.Call:
+				if callee := x.Call.StaticCallee(); callee != nil && fullFuncName(callee) == "reflect.TypeOf" && len(x.Call.Args) == 1 {
+					operand = x.Call.Args[0]
+				}
+			}
+			if operand == nil {
+				continue
+			}
+			t := sf.val(operand)
+			if n, ok := invokeName(t); ok && n == "GetParent" && len(t.Kids) == 1 && t.Kids[0].Op == "param" {
+				tested = true
+			}
+		}
+	}
+	if !tested {
+		// the other discipline: a depth kept by the Enter/Exit pair (a package-level counter both callbacks touch)
+		if recv := fn.Signature.Recv(); recv != nil {
+			pr, tn := "", ""
+			if pk, n := namedTypeName(recv.Type()); pk != "" {
+				pr, tn = strings.TrimPrefix(pk, modPath+"/"), n
+			}
+			for _, m := range p.methodsDeclaredOn(pr, tn) {
+				if m.Name() != "Exit"+strings.TrimPrefix(fn.Name(), "Enter") {
+					continue
+				}
+				a := getStateAn(p)
+				_, wExit := a.locals(m)
+				rEnter, _ := a.locals(fn)
+				for g := range wExit {
+					// a counter, not a flag: a flag is cleared by the inner Exit while the outer construct is still open
+					bt, isBasic := g.Type().Underlying().(*types.Pointer).Elem().Underlying().(*types.Basic)
+					if _, ok := rEnter[g]; ok && isBasic && bt.Info()&types.IsInteger != 0 {
+						tested = true
+					}
+				}
+			}
+		}
+	}
+	return tested
+}
+
+// ---------------------------------------------------------------------------------------------
+// nested kill: a lookup table (map-typed package variable) that the callbacks of a listener fill must not be re-made inside a
+// callback for a grammar rule that can contain itself (a method declaration inside an anonymous class inside a method body)
+// unless that callback tells nested from outermost occurrences: the enclosing occurrence loses its entries mid-way.
+type NestedKillSpec struct {
+	Props    []string `json:"props"`
+	Pkg      string   `json:"pkg"`      // package of the listener (relative)
+	Listener string   `json:"listener"` // listener type name
+	Grammar  string   `json:"grammar"`
+	Min      int      `json:"min"` // self-nesting callbacks confirmed by hand
+	What     string   `json:"what"`
+}
+
+func runNestedKills(p *Program, sp *Spec, c *Collector, nk NestedKillSpec) {
+	g := sp.G[nk.Grammar]
+	ms := p.methodsDeclaredOn(nk.Pkg, nk.Listener)
+	if g == nil || len(ms) == 0 {
+		c.Anchor(nk.Props, "E6: nested kill: listener %s.%s / grammar %s does not resolve", nk.Pkg, nk.Listener, nk.Grammar)
+		return
+	}
+	n := 0
+	for _, fn := range ms {
+		_, rule, ok := callbackRule(fn.Name())
+		if !ok {
+			continue
+		}
+		recursive := false
+		via := ""
+		for child := range g.Refs(rule) {
+			if g.ReachableWithout(child, nil, nil)[rule] {
+				recursive = true
+				if via == "" || child < via {
+					via = child
+				}
+			}
+		}
+		if !recursive {
+			continue
+		}
+		n++
+		key := "nestedkill:" + p.FuncKey(fn)
+		// kills of map-typed package variables in the callback and in the helpers it calls (not other callbacks)
+		var bad ssa.Instruction
+		var name string
+		seen := map[*ssa.Function]bool{}
+		var visit func(f *ssa.Function, depth int)
+		visit = func(f *ssa.Function, depth int) {
+			if seen[f] || depth > 2 || len(f.Blocks) == 0 {
+				return
+			}
+			seen[f] = true
+			for _, b := range f.Blocks {
+				for _, in := range b.Instrs {
+					switch x := in.(type) {
+					case *ssa.Store:
+						gv, isG := x.Addr.(*ssa.Global)
+						if !isG || !p.Own[gv.Pkg.Pkg] || bad != nil {
+							continue
+						}
+						if _, isMap := gv.Type().Underlying().(*types.Pointer).Elem().Underlying().(*types.Map); !isMap {
+							continue
+						}
+						switch v := x.Val.(type) {
+						case *ssa.MakeMap:
+							bad, name = in, gv.Name()
+						case *ssa.Const:
+							if v.IsNil() {
+								bad, name = in, gv.Name()
+							}
+						}
+					case *ssa.Call:
+						if callee := x.Call.StaticCallee(); callee != nil && callee.Pkg != nil && p.Own[callee.Pkg.Pkg] {
+							if _, _, isCb := callbackRule(callee.Name()); !isCb || callee.Signature.Recv() == nil {
+								visit(callee, depth+1)
+							}
+						}
+					}
+				}
+			}
+		}
+		visit(fn, 0)
+		switch {
+		case bad == nil:
+			c.Ob(nk.Props, "E6.nested-kill", key, Discharged, "rule "+rule+" can occur inside itself (through "+via+"); the callback re-makes no lookup table", p.FuncPos(fn), true)
+		case nestingTested(p, fn):
+			c.Ob(nk.Props, "E6.nested-kill", key, Discharged, "rule "+rule+" can occur inside itself; the callback re-makes "+name+" but tells nested from outermost occurrences", p.FuncPos(fn), true)
+		default:
+			c.Ob(nk.Props, "E6.nested-kill", key, Violated, nk.What+": rule "+rule+" can occur inside itself (through "+via+"), and the callback re-makes the lookup table "+name+" on every occurrence: what the enclosing occurrence had registered is gone for the rest of its body", p.InstrPos(bad), false)
+		}
+	}
+	if n < nk.Min {
+		c.Anchor(nk.Props, "E6: nested kill: %d self-nesting callbacks found on %s.%s, %d confirmed by hand", n, nk.Pkg, nk.Listener, nk.Min)
 	}
 }
